@@ -70,5 +70,5 @@ def generate(rng, tier):
 
 
 def shape_key(case, results):
-    t = case[0].split()
+    t = (case[0].split() if case else []) + ["?", "?", "?"]
     return "box-%s" % t[1]
